@@ -93,6 +93,9 @@ func lsRunRS(t testing.TB, tr *tracer, sc lsScenario, variant int, alloc bool) {
 	wantOwner := map[string][2]uint32{} // the owner each entry reports (FileInfoUidGid, Sys().(*syscall.Stat_t), or none)
 	for i := 0; i < sc.N; i++ {
 		name := lsName(i, variant)
+		if variant%4 == 2 && i%7 == 3 {
+			name = strings.Repeat(".", 3+i/7) // "...", "....": legal names, only "." and ".." are excluded
+		}
 		if variant%3 == 1 && i == 0 {
 			name = "."
 		}
@@ -189,6 +192,9 @@ func lsRunServer(t testing.TB, tr *tracer, n int, alloc bool) {
 		name := fmt.Sprintf("f%04d", i)
 		if i%9 == 3 {
 			name = fmt.Sprintf("\xfe\xff%04d", i)
+		}
+		if i%13 == 7 {
+			name = strings.Repeat(".", 3+i/13) // dots only, three or more: an ordinary name
 		}
 		if i%11 == 5 {
 			os.Mkdir(filepath.Join(root, name), 0o755)
